@@ -65,15 +65,23 @@ def solve_one(item):
     txt = text
     if want_model:
         txt = text.replace('(check-sat)', '(check-sat)\n(get-model)')
+    # portfolio: quantifier instantiation in z3 is sensitive to the random seed (measured on the Gram-preservation VCs:
+    # 0.4 s with seed 1, > 30 s with seed 4 on the same text), so several cheap attempts beat one long one
+    t1 = max(2, int(timeout_s * 0.3))
+    t2 = max(2, int(timeout_s * 0.2))
     backends = []
     if Z3_NEW:
-        backends.append(('z3-5.1', [Z3_NEW, '-T:%d' % timeout_s, 'model.completion=true']))
+        backends.append(('z3-5.1', [Z3_NEW, '-T:%d' % t1, 'model.completion=true']))
+        backends.append(('z3-5.1/seed1', [Z3_NEW, '-T:%d' % t2, 'smt.random_seed=1', 'sat.random_seed=1']))
+        backends.append(('z3-5.1/seed2/arith2', [Z3_NEW, '-T:%d' % t2, 'smt.random_seed=2', 'smt.arith.solver=2']))
     if Z3_OLD:
-        backends.append(('z3-4.8.12', [Z3_OLD, '-T:%d' % timeout_s, 'smt.random_seed=7']))
+        backends.append(('z3-4.8.12', [Z3_OLD, '-T:%d' % t1, 'smt.random_seed=7']))
     res = 'unknown'
     out = ''
     for name, cmd in backends:
         r, dt, o = run_cli(cmd, txt, timeout_s)
+        if r.startswith('error') and 'model' in o and 'sat' in o.split('\n')[0]:
+            r = 'sat'
         attempts.append((name, r, round(dt, 3)))
         if r in ('sat', 'unsat'):
             res, out = r, o
@@ -101,4 +109,14 @@ def discharge(vcs, timeout_s=30, jobs=None, want_model=True, progress=None, theo
             results[r['index']] = r
             if progress:
                 progress(r)
+    # second pass: anything still `unknown` is retried with three times the budget and little parallelism, so that a
+    # verdict does not depend on how busy the machine was during the first pass
+    again = [it for it in items if results[it[0]]['result'] == 'unknown']
+    if again:
+        retry = [(i, text, timeout_s * 3, wm) for (i, text, _t, wm) in again]
+        with ThreadPoolExecutor(max_workers=max(2, jobs // 4)) as ex:
+            for r in ex.map(solve_one, retry):
+                prev = results[r['index']]
+                r['attempts'] = prev['attempts'] + [('retry',) + tuple(a[1:]) if False else a for a in r['attempts']]
+                results[r['index']] = r
     return results
